@@ -13,7 +13,7 @@ import warnings
 import numpy as np
 
 import hpcases as H
-from lib import Checker, digest, fp_values
+from lib import Checker, digest, fp_values, fork_call
 
 PROPERTY = "C09"
 RULE = ("clusters = all subsets of size 1..4 (quick: a fixed selection) of 6 "
@@ -41,7 +41,9 @@ TOLERANCES = {"permutation-default": 1e-6,    # [4.3e-9] of the peak field
               "one-sphere-vs-mie-far-tight": 1e-6,     # [2.7e-8]
               "weak-coupling": "0.25 x^3 / (k d)",   # [0.05 of it]
               "displaced-sphere": 1e-5,       # [2.2e-7]
-              "auto-vs-explicit": "bit-identical"}
+              "auto-vs-explicit": "bit-identical",
+              # the permutation tolerance: [0 on the unchanged tree]
+              "history": 1e-6}
 TIMEOUT = 900
 MIN_AGREEING_PAIRS = 3        # [worst observed: 6 of 15]
 
@@ -124,7 +126,87 @@ def cases(tier, seed):
                         "sizes": True})
     out.append({"id": "rot:sizes", "kind": "rot", "sub": [0, 1, 2],
                 "sizes": True})
+    # histories: clusters that differ from the previous call's cluster in one
+    # respect only (absorption, index, radius, position, listing order)
+    ops = sorted(HIST_CLUSTERS)
+    refs = {}
+    for o in ops:
+        st, val = fork_call(_hist_field, o)
+        refs[o] = val if st == "ok" else None
+    seqs = [list(q) for q in itertools.product(ops, repeat=2)]
+    if tier != "quick":
+        seqs += [list(q) for q in itertools.product(ops[:6], repeat=3)]
+    # one case per first operation (its continuations run in forks of one
+    # interpreter each)
+    for o in ops:
+        out.append({"id": "history:%s" % o, "kind": "history", "first": o,
+                    "seqs": [q for q in seqs if q[0] == o],
+                    "ref": refs})
     return out
+
+
+_SA = (1.45, 0.4)
+_SB = (1.45 + 0.05j, 0.4)         # only the absorption differs
+_SC = (1.46, 0.4)                 # only the real index
+_SD = (1.45, 0.41)                # only the radius
+_P1, _P2, _P3 = (0.3, 0.2, 5.0), (1.5, 0.9, 5.4), (1.5, 0.9, 5.5)
+HIST_CLUSTERS = {
+    "1a": [(_SA, _P1)], "1b": [(_SB, _P1)], "1c": [(_SC, _P1)],
+    "1d": [(_SD, _P1)],
+    "2ab": [(_SA, _P1), (_SB, _P2)], "2ba": [(_SB, _P2), (_SA, _P1)],
+    "2ba-swapped-places": [(_SB, _P1), (_SA, _P2)],
+    "2ac": [(_SA, _P1), (_SC, _P2)], "2ad": [(_SA, _P1), (_SD, _P2)],
+    "2ab-moved": [(_SA, _P1), (_SB, _P3)],
+}
+
+
+def _hist_field(name):
+    from holopy.scattering import Sphere, Spheres, Multisphere
+    with warnings.catch_warnings():
+        warnings.simplefilter("ignore")
+        sc = Spheres([Sphere(n=n, r=r, center=c)
+                      for (n, r), c in HIST_CLUSTERS[name]])
+        v = _field(H.det_grid(3, 0.4), sc, Multisphere())
+    v = np.asarray(v).ravel()
+    return [float(x) for x in np.concatenate([v.real, v.imag])]
+
+
+def _run_history(case, ck):
+    """B after A (after A after ...) in one interpreter gives the field B
+    gives in a pristine interpreter: otherwise listing order, the one-sphere
+    rule and rotation covariance would hold or fail depending on what was
+    computed before"""
+    ref = case["ref"]
+    acc = []
+
+    def walk(seq):
+        outs, rep = [], []
+        for i, o in enumerate(seq):
+            got = np.array(_hist_field(o))
+            if ref[o] is None:
+                continue
+            r = np.array(ref[o])
+            rep.append((o, i, float(np.abs(got - r).max() /
+                                    np.abs(r).max())))
+            outs.append(np.round(got, 9))
+        return digest(*outs), rep
+    for seq in case["seqs"]:
+        st, val = fork_call(walk, seq)
+        if st != "ok":
+            ck.true("history:same-cluster-same-solution", False,
+                    "sequence %s: %s %r" % (">".join(seq), st, val))
+            acc.append(st)
+            continue
+        ck.trans += len(seq)
+        for o, i, e in val[1]:
+            ck.metric("history", e)
+            ck.true("history:same-cluster-same-solution",
+                    e <= TOLERANCES["history"],
+                    "cluster %s computed as step %d of %s differs by %.2e "
+                    "from the same cluster computed first in an interpreter"
+                    % (o, i + 1, ">".join(seq), e))
+        acc.append(val[0])
+    return digest(*acc)
 
 
 POS_ALIGNED = [(0.3, 0.1, 5.0), (0.3, 1.0, 5.6), (1.2, 0.1, 4.5)]
@@ -774,6 +856,6 @@ def run_case(case):
     _USE_SIZES[0] = bool(case.get("sizes"))
     fp = {"perm": _run_perm, "bigperm": _run_bigperm, "rot": _run_rot,
           "rule": _run_rule, "weak": _run_weak, "weaklens": _run_weaklens, "weaknear": _run_weaknear,
-          "xsecrot": _run_xsecrot,
+          "xsecrot": _run_xsecrot, "history": _run_history,
           "displaced": _run_displaced}[case["kind"]](case, ck)
     return ck.result(fp=fp)
